@@ -6,6 +6,10 @@ From FF Require Import Model.Tensor Spec.Kron Proofs.TensorIdx Proofs.TensorOrde
   Proofs.TensorKron Proofs.TensorRegroup Proofs.TensorInsert Proofs.TensorInsertModel Proofs.TensorInsertLoop.
 Import ListNotations.
 
+Section Generic.
+Context {T : Type} {EN : Entry T} {EL : EntryLaws T}.
+Local Notation arr := (garr T).
+
 Definition dims_table (r : nat) (L : list arr) : list (list nat) := map (fun a => axis_dims a L) (seq 0 r).
 
 (* entry of factor k selected by the per-axis index blocks V *)
@@ -56,3 +60,4 @@ Corollary unfolded_entry' r L V : 1 <= r -> L <> [] -> Forall (wf r) L -> Forall
   aget (mkArr (concat (dims_table r L)) (dat (chain_u r L))) (concat V) =
   zprod (map (fun k => aget (nth k L (mkArr [] [])) (factor_pick r V k)) (seq 0 (length L))).
 Proof. intros Hr Hne. destruct L as [|F L]; [congruence|]. apply unfolded_entry; auto. Qed.
+End Generic.
